@@ -91,8 +91,16 @@ def case(rng: Any, ctx: Ctx, index: int) -> None:
             d = d + 1
         vshape.append(d)
     vshape = tuple(vshape)
+    ldts = [dt] * nleaves
+    if nleaves > 1 and rng.integers(3) == 0:
+        # leaves of different dtypes in one pytree, values no wider than the narrowest: each leaf is multiplied in its own precision
+        narrow, wide_ = (np.float32, np.float64) if gen.X64 else (np.float16, np.float32)
+        ldts = [narrow if rng.integers(2) else wide_ for _ in range(nleaves)]
+        ldts[int(rng.integers(nleaves))] = narrow
+        dt = np.dtype(narrow)
+        LOG.count('C11.mixed-dtype-leaves', '+'.join(sorted({np.dtype(d).name for d in ldts})))
     values = gen.dy(rng, vshape, dt)
-    s: Any = S(shapes[0], dt) if nleaves == 1 else ([S(sh, dt) for sh in shapes] if rng.integers(2) else {f'k{i}': S(sh, dt) for i, sh in enumerate(shapes)})
+    s: Any = S(shapes[0], dt) if nleaves == 1 else ([S(sh, d) for sh, d in zip(shapes, ldts)] if rng.integers(2) else {f'k{i}': S(sh, d) for i, (sh, d) in enumerate(zip(shapes, ldts))})
     outcome, outs = reference_outcome(vshape, axes, shapes)
     strict_ok = outcome == 'ok' and all(tuple(o) == tuple(sh) for o, sh in zip(outs, shapes))
     key = f'{form}:v{vr}d:ranks{sorted(ranks)}:{align}:{outcome}/{"strict" if strict_ok else "changes-shape"}'
